@@ -206,6 +206,11 @@ func (c *Client) Run(ctx context.Context) error {
 	// head will lag until the next on-chain LogStateUpdate is observed, which
 	// is acceptable rather terminating the execution.
 	if err := c.catchUpL1HeadUpdates(ctx); err != nil {
+		// A failed write of the head is not best-effort: setL1Head has already dropped the
+		// logs it picked the head from, so the live subscription cannot make up for it.
+		if errors.Is(err, errStoreL1Head) {
+			return err
+		}
 		c.logger.Warn(
 			"L1 head catch-up failed; resuming with live subscription only",
 			zap.Error(err),
@@ -302,6 +307,9 @@ func (c *Client) applyStateUpdate(stateUpdate *StateUpdate) {
 	}
 }
 
+// errStoreL1Head marks a failure to persist the L1 head, as opposed to a failed L1 query.
+var errStoreL1Head = errors.New("storing l1 head")
+
 // catchUpL1HeadUpdates performs a backward scan of historical LogStateUpdate
 // events emitted while the node was offline (or before it ever ran), populating
 // nonFinalisedLogs so that the first setL1Head call can write an L1 head
@@ -395,7 +403,11 @@ func (c *Client) catchUpL1HeadUpdates(ctx context.Context) error {
 				zap.Int("nonFinalisedLogs", len(c.nonFinalisedLogs)),
 				zap.Bool("foundFinalised", foundFinalised),
 			)
-			return c.setL1Head(ctx)
+			// setL1Head fails only if the head cannot be written.
+			if err := c.setL1Head(ctx); err != nil {
+				return fmt.Errorf("%w: %w", errStoreL1Head, err)
+			}
+			return nil
 		}
 		to = from - 1
 	}
